@@ -582,14 +582,26 @@ def r14_bottom_clamp_siblings(ck, P, rid='C12-R14'):
             c, p, ops = f.cond(t.a[0])
             if c is None or c.op != 'icmp' or p not in ('sge', 'sgt', 'slt', 'sle'):
                 continue
-            hs = [o for o in ops if f.v(f.strip_casts(o)) is not None and f.v(f.strip_casts(o)).op == 'load' and f.last_field(f.path(f.v(f.strip_casts(o)).a[0])) == 'bits_image.height']
             sh = [o for o in ops if f.v(o) is not None and f.v(o).op == 'ashr' and f.v(o).a[1][0] == 'c' and int(f.v(o).a[1][1]) == 16]
-            if len(hs) != 1 or len(sh) != 1:
+            if len(sh) != 1:
+                continue
+            # the other side: the image height, possibly plus a constant (x >= height is also written x > height - 1)
+            hs = []
+            for o in ops:
+                if o is sh[0]:
+                    continue
+                lo = _lin(f, o) or {}
+                for kk, vv in lo.items():
+                    if kk != 1 and kk[0] == 'v' and vv == 1:
+                        y = f.by_id.get(kk[1])
+                        if y is not None and y.op == 'load' and f.last_field(f.path(y.a[0])) == 'bits_image.height' and not (set(lo) - {kk, 1}):
+                            hs.append(['v', kk[1]])
+            if len(hs) != 1:
                 continue
             # the side on which the coordinate is at or beyond the height
             beyond_is_true = (p in ('sge', 'sgt')) == (ops.index(sh[0]) == 0)
             side = t.d['succ'][0] if beyond_is_true else t.d['succ'][1]
-            H = f.strip_casts(hs[0])
+            H = hs[0]
             # the value that replaces the coordinate: the phi operand arriving from that side
             repl = None
             for blk in f.blocks:
